@@ -1030,6 +1030,12 @@ impl Heap {
     }
 
     #[inline]
+    /// allocated capacity in cells.
+    #[inline]
+    pub(crate) fn cell_capacity(&self) -> usize {
+        cell_index!(self.inner.byte_cap)
+    }
+
     pub(crate) fn truncate(&mut self, cell_offset: usize) {
         self.inner.byte_len = heap_index!(cell_offset);
         // self.pstr_vec.truncate(cell_offset);
